@@ -37,7 +37,7 @@ CORPUS = [
      [["mkcoll", 0], ["put", 0, 0, "a", 0], ["sync", 0, None], ["del", 0, 0], ["sync", 0, 0], ["sync", 0, ["last"]]]),
     # history in the cache sub-folder survives replacement / deletion of the collection
     (dict(sub_item=True, sub_hist=True, sub_tok=True, max_age=100),
-     [["mkcoll", 0], ["put", 0, 0, "a", 0], ["put", 0, 1, "b", 0], ["sync", 0, None], ["replace", 0, [["a", 0], ["b", 1]]],
+     [["mkcoll", 0], ["put", 0, 0, "a", 0], ["put", 0, 1, "plan%41", 0], ["sync", 0, None], ["replace", 0, [["a", 0], ["plan%41", 1]]],
       ["sync", 0, 0], ["delcoll", 0], ["mkcoll", 0], ["sync", 0, 0], ["sync", 0, 1], ["put", 0, 0, "a", 0], ["sync", 0, 1]]),
     # MOVE over an existing item of another collection, back, and onto itself
     (dict(sub_item=False, sub_hist=False, sub_tok=False, max_age=100),
@@ -55,9 +55,9 @@ CORPUS = [
       ["sync", 0, 0], ["sync", 0, None]]),
     # an item known to the token but to neither the collection nor the history any more (second loop of sync())
     (dict(sub_item=False, sub_hist=False, sub_tok=True, max_age=100),
-     [["mkcoll", 0], ["put", 0, 0, "a", 0], ["put", 0, 1, "b", 0], ["sync", 0, None], ["replace", 0, [["b", 0]]], ["sync", 0, 0]]),
+     [["mkcoll", 0], ["put", 0, 0, "a", 0], ["put", 0, 1, "plan%41", 0], ["sync", 0, None], ["replace", 0, [["plan%41", 0]]], ["sync", 0, 0]]),
     (dict(sub_item=False, sub_hist=False, sub_tok=False, max_age=100),
-     [["mkcoll", 0], ["put", 0, 0, "a", 0], ["sync", 0, None], ["del", 0, 0], ["tick", 100], ["put", 0, 1, "b", 0], ["sync", 0, 0],
+     [["mkcoll", 0], ["put", 0, 0, "a", 0], ["sync", 0, None], ["del", 0, 0], ["tick", 100], ["put", 0, 1, "plan%41", 0], ["sync", 0, 0],
       ["sync", 0, ["last"]]]),
     # a token handed out again later lives on from that moment (utime branch)
     (dict(sub_item=False, sub_hist=False, sub_tok=False, max_age=100),
@@ -68,15 +68,15 @@ CORPUS = [
       ["sync", 0, ["mal", "   "]], ["sync", 0, 9], ["ptok", 0], ["sync", 0, None]]),
     # server mounted below a base prefix (SCRIPT_NAME / X-Script-Name): changed AND removed hrefs carry it
     (dict(sub_item=False, sub_hist=False, sub_tok=False, max_age=100, prefix="script"),
-     [["mkcoll", 0], ["mkcoll", 1], ["put", 0, 0, "a", 0], ["put", 0, 1, "b", 0], ["sync", 0, None], ["del", 0, 1], ["put", 0, 0, "a", 1],
+     [["mkcoll", 0], ["mkcoll", 1], ["put", 0, 0, "a", 0], ["put", 0, 1, "plan%41", 0], ["sync", 0, None], ["del", 0, 1], ["put", 0, 0, "a", 1],
       ["sync", 0, 0], ["move", 0, 0, 1, 2], ["sync", 0, 0], ["sync", 1, None], ["ptok", 0]]),
     (dict(sub_item=False, sub_hist=True, sub_tok=True, max_age=100, prefix="xscript"),
-     [["mkcoll", 0], ["put", 0, 0, "a", 0], ["put", 0, 2, "c", 0], ["sync", 0, None], ["replace", 0, [["a", 1]]], ["sync", 0, 0],
+     [["mkcoll", 0], ["put", 0, 0, "a", 0], ["put", 0, 2, "c d+\u00e9%25", 0], ["sync", 0, None], ["replace", 0, [["a", 1]]], ["sync", 0, 0],
       ["sync", 0, ["last"]]]),
     # the write of a new token file fails (ENOSPC before / in the middle of the pickle): no file may keep the token's
     # name; the token handed out afterwards must work
     (dict(sub_item=False, sub_hist=False, sub_tok=False, max_age=100),
-     [["mkcoll", 0], ["put", 0, 0, "a", 0], ["syncfail", 0, None, "trunc"], ["sync", 0, None], ["put", 0, 1, "b", 0], ["sync", 0, ["last"]],
+     [["mkcoll", 0], ["put", 0, 0, "a", 0], ["syncfail", 0, None, "trunc"], ["sync", 0, None], ["put", 0, 1, "plan%41", 0], ["sync", 0, ["last"]],
       ["sync", 0, ["last"]]]),
     (dict(sub_item=False, sub_hist=False, sub_tok=True, max_age=100, prefix="script"),
      [["mkcoll", 0], ["sync", 0, None], ["put", 0, 0, "a", 0], ["syncfail", 0, 0, "enospc"], ["ptok", 0], ["del", 0, 0], ["sync", 0, ["last"]],
@@ -115,6 +115,7 @@ def _work(job):
                 modified = True
         kinds[key] = kinds.get(key, 0) + 1
     out["kinds"] = kinds
+    out["tolerated"] = r.get("tolerated", 0)
     out["nontrivial"] = nontrivial
     out["results"] = [t[2] for t in trace]
     if want_model:
@@ -145,9 +146,9 @@ def random_cfg(rng):
 
 # small-scope alphabet: collection 0, hrefs a/b, contents 0/1
 def enum_alphabet(max_age):
-    return [["put", 0, 0, "a", 0], ["put", 0, 0, "a", 1], ["put", 0, 1, "b", 0], ["put", 0, 1, "b", 1],
+    return [["put", 0, 0, "a", 0], ["put", 0, 0, "a", 1], ["put", 0, 1, "plan%41", 0], ["put", 0, 1, "plan%41", 1],
             ["del", 0, 0], ["del", 0, 1], ["move", 0, 0, 0, 1], ["move", 0, 1, 0, 0],
-            ["tick", max_age], ["replace", 0, [["a", 0]]], ["replace", 0, [["a", 1], ["b", 0]]], ["dropcache", 0, True]]
+            ["tick", max_age], ["replace", 0, [["a", 0]]], ["replace", 0, [["a", 1], ["plan%41", 0]]], ["dropcache", 0, True]]
 
 
 def enum_histories(maxlen, cfg, mode):
@@ -206,6 +207,8 @@ def process(ctx, results, tag, with_model):
             continue
         for k, v in r["kinds"].items():
             ctx.count("%s:%s" % (tag, k), v)
+        if r.get("tolerated"):
+            ctx.count("%s:207-after-injected-PermissionError(tolerated by sync.py, token may be unknown)" % tag, r["tolerated"])
         ctx.case((json.dumps(r["cfg"], sort_keys=True), json.dumps(r["ops"])), nontrivial=r["nontrivial"],
                  sample=dict(cfg=r["cfg"], ops=r["ops"][:14], results=[str(x) for x in r["results"][:14]]) if r["nontrivial"] else None)
         if r["errors"] and reported < 3:
@@ -269,6 +272,21 @@ def run(ctx):
     res = run_jobs(jobs)
     ctx.log("implementation done; running the model in Coq")
     process(ctx, res, "random", True)
+
+    # ------------------------------------------------------------ fault enumeration: errno x call of the token write
+    jobs = []
+    for cfg in (dict(sub_item=False, sub_hist=False, sub_tok=False, max_age=100),
+                dict(sub_item=False, sub_hist=False, sub_tok=True, max_age=100, prefix="script")):
+        for call in X.FAULT_CALLS:
+            for en in X.ERRNOS:
+                mode = "%s:%s" % (call, en)
+                # the faulted REPORT presents an older token / is the first one (token folder not yet there)
+                jobs.append(("fault", cfg, [["mkcoll", 0], ["put", 0, 0, "a", 0], ["sync", 0, None], ["put", 0, 1, "plan%41", 0],
+                                            ["syncfail", 0, 0, mode], ["del", 0, 0], ["sync", 0, ["last"]], ["sync", 0, ["last"]],
+                                            ["sync", 0, 0]], True))
+                jobs.append(("fault", cfg, [["mkcoll", 0], ["put", 0, 0, "a", 0], ["syncfail", 0, None, mode], ["put", 0, 1, "plan%41", 0],
+                                            ["sync", 0, ["last"]], ["sync", 0, None], ["del", 0, 0], ["sync", 0, ["last"]]], True))
+    process(ctx, run_jobs(jobs), "fault", True)
 
     # ------------------------------------------------------------ small-scope enumeration
     base = dict(sub_item=False, sub_hist=False, sub_tok=False, max_age=100)
